@@ -103,6 +103,7 @@ def run(pid, tier="quick"):
                          time_s=0, failed_checks=[], output=err, doc=h["doc"]) for hf, h in wanted], err
         env = dict(os.environ)
         env["CARGO_NET_OFFLINE"] = "true"
+        env["RUSTFLAGS"] = (env.get("RUSTFLAGS", "") + " --cfg rxrust_verif").strip()   # hooks on
         env["CARGO_TARGET_DIR"] = TARGET
         os.makedirs(TARGET, exist_ok=True)
         jpath = os.path.join(scratch, "kani.json")
